@@ -51,6 +51,13 @@ func genCli(g *G, n int, out io.Writer) {
 	} {
 		inputs = append(inputs, pd{fmt.Sprintf("data-spelling-%d", k), okProfile, d})
 	}
+	// legal profiles with unusual features the library may want to talk about: names listed under a level without a definition,
+	// an empty level list, a validation listed under two levels, duplicate keys, a message that is not a string
+	inputs = append(inputs,
+		pd{"dangling-level-name", strings.Replace(okProfile, "violation:\n", "warning:\n  - not-written-yet\nviolation:\n  - removed-rule\n", 1), okData},
+		pd{"empty-level", strings.Replace(okProfile, "violation:\n", "info: []\nviolation:\n", 1), okData},
+		pd{"numeric-message", strings.Replace(okProfile, "message: m", "message: 5", 1), okData},
+	)
 	bad := []pd{
 		{"bad-profile", "profile: [", okData},
 		{"bad-profile-prefix", profVariants[9].text, okData},
